@@ -308,14 +308,21 @@ func (e *SpecEnv) ident(name string) Val {
 			return v
 		}
 		// heap-allocated struct local (escaping `x := T{}` / `&T{}`): its address
+		var declared *ssa.Alloc
 		for _, b := range e.fr.fn.Blocks {
 			for _, in := range b.Instrs {
 				if a, ok := in.(*ssa.Alloc); ok && a.Comment == name {
+					declared = a
 					if v, ok := e.fr.regs[a]; ok {
 						return v
 					}
 				}
 			}
+		}
+		if declared != nil {
+			// the variable exists in the function but has not been reached on this path: its value is
+			// unconstrained (a clause that depends on it is provable only where its guard is false)
+			return x.havocVal(e.st, "unreached_"+sanitize(name), declared.Type().(*types.Pointer).Elem())
 		}
 	}
 	// package-level object
@@ -652,6 +659,25 @@ func (e *SpecEnv) call(n *CallE) Val {
 			return Term{s, boolT}
 		}
 		return Term{e.eqNil(v, Term{"0", nil}), boolT}
+	case "fsum", "fsumr": // fsum(s, Field) / fsumr(s, Field, lo, hi): sum of s[i].Field over the slice / over lo <= i < hi
+		sv := e.term(e.eval(n.Args[0]))
+		sl, ok := sv.T.Underlying().(*types.Slice)
+		if !ok {
+			bail("spec: fsum needs a slice")
+		}
+		fld, ok := n.Args[1].(*Ident)
+		if !ok {
+			bail("spec: fsum(slice, FieldName[, lo, hi])")
+		}
+		fn := x.sumFunc(sl.Elem(), fld.Name)
+		an, as := x.arrName(sl.Elem())
+		arr := app("select", x.getArr(e.st, an, as), app("s_arr", sv.S))
+		lo, hi := "0", app("s_len", sv.S)
+		if n.Fun == "fsumr" {
+			lo, hi = e.term(e.eval(n.Args[2])).S, e.term(e.eval(n.Args[3])).S
+		}
+		si := x.structInfo(sl.Elem())
+		return Term{app(fn, arr, app("at", app("s_off", sv.S), lo), app("at", app("s_off", sv.S), hi)), si.ftypes[fieldIndex(si.st, fld.Name)]}
 	case "hcount": // hcount(h, e): occurrences of element e in heap h (ghost multiset of container/heap)
 		hv := e.heapOf(n.Args[0])
 		return Term{x.hcountTerm(e.st, hv.et, hv.ref, e.term(e.eval(n.Args[1])).S), intT}
